@@ -42,7 +42,7 @@ MANIFEST = dict(
          "model (C03): every record the source publishes for a channel not in edge-multi mode has the configured length whatever the data "
          "(runOps_chan_len), so the LJH 2.2 writer accepts every one and, for ANY run of blocks inside a writing period, the file body reads "
          "back as exactly the channel's published records in order (pipeline_to_ljh22_file, pipeline_to_ljh3_file); from packets: "
-         "abaco_to_ljh22_file. On every run the real ljh.Writer, ljh.Writer3, off.Writer, "
+         "abaco_to_ljh22_file, from the Lancero card's bytes under any read schedule: lancero_to_ljh22_file. On every run the real ljh.Writer, ljh.Writer3, off.Writer, "
          "DataPublisher.PublishData and AnySource.WriteControl write files that are parsed by the same doc-derived parsers, judged by the "
          "same oracle and compared byte-for-byte (body) / field-wise (header) with the model.",
     note="Trusted: Lean 4.33 kernel (axioms propext, Classical.choice, Quot.sound only; audited every run); the hand-written model is tied "
@@ -85,4 +85,5 @@ THEOREMS = [
     ("DastardV.Lemmas.ComposeFile", "DastardV.Compose.pipeline_to_ljh22_file"),
     ("DastardV.Lemmas.ComposeFile", "DastardV.Compose.pipeline_to_ljh3_file"),
     ("DastardV.Lemmas.ComposeEndToEnd", "DastardV.Compose.abaco_to_ljh22_file"),
+    ("DastardV.Lemmas.ComposeEndToEnd", "DastardV.Compose.lancero_to_ljh22_file"),
 ]
